@@ -235,6 +235,12 @@ M = [
     ("C18", "set-filter-not-exception-safe", P + "proxy/message_logger.py",
      "            m not in self._raw_entries and self._filter_matches(m)\n        ]\n        self._filtered_entries.extend((m for m in self._raw_entries if self._filter_matches(m)))",
      "            m not in self._raw_entries and self.filter.match(m)\n        ]\n        self._filtered_entries.extend((m for m in self._raw_entries if self.filter.match(m)))"),
+    ("C07", "bare-rlv-marker-swallowed", P + "proxy/addons.py",
+     "                all_cmds_handled = bool(commands)", "                all_cmds_handled = True"),
+    ("C06", "non-utf8-chat-typeerror", P + "client/rlv.py",
+     "        if not isinstance(chat, str):\n            return False\n", ""),
+    ("C06", "self-addressed-socks-learnt", P + "proxy/socks_proxy.py",
+     "                if remote_addr == source_addr:", "                if False and remote_addr == source_addr:"),
     # ---- C20 ----
     ("C20", "transfer-done-on-done-packet", P + "base/transfer_manager.py",
      "        if not transfer.done() and len(transfer.chunks) == transfer.expected_chunks:",
